@@ -39,7 +39,7 @@ CLAIMED = {
          "Trusted: the SGR stripper. Inputs contain no ESC bytes (not in the quantifier). BULK families (command structs on the real context): every EV document of C06 and 12 k tag-table documents x 14 commands x 4 configurations.",
          "DESIGN.md §4 C18"),
  "C19": ("explicit-state model checking of the full bookmark-database state graph: every state built through the real CLI, every operation executed in every state, compared with a plain map; state canonicity checked on every transition",
-         "The state (bookmarks.json) space is enumerated completely (256 states quick, 15625 thorough); in every state every set/unset/clear operation with every name spelling and target is executed through klog.Run and compared with the map model (result map read back with a strict JSON parser, failure = unchanged bytes + non-zero exit), list/info/@name resolution/default-bookmark resolution are compared on every state, and the bytes reached by (state, op) must equal those of the successor state built on its own shortest path.",
+         "The state (bookmarks.json) space is enumerated completely (256 states quick, 4096 thorough); in every state every set/unset/clear operation with every name spelling and target is executed through klog.Run and compared with the map model (result map read back with a strict JSON parser, failure = unchanged bytes + non-zero exit), list/info/@name resolution/default-bookmark resolution are compared on every state, and the bytes reached by (state, op) must equal those of the successor state built on its own shortest path.",
          "Trusted: the map model and the name normalisation rule; the database file is the whole state.",
          "DESIGN.md §4 C19"),
  "C02": ("bounded exhaustive enumeration of valid documents over an arithmetic value menu (all sequences of <=3 entries; two/three records; --now clock/date products) against an independent integer-minute evaluator",
